@@ -57,6 +57,7 @@ type fctx struct {
 	fc       *FuncContract
 	info     *types.Info
 	loopOrd  map[ast.Node]int
+	exhaustiveDone map[int]bool
 	results  []*types.Var
 	rets     []retRec
 	frames   []*frame
@@ -81,6 +82,7 @@ type deferRec struct {
 }
 
 type Exec struct {
+	inlining map[*ast.FuncLit]bool // closures being inlined (recursion guard)
 	P        *Program
 	W        *World
 	cx       *fctx
@@ -1433,6 +1435,7 @@ func assignedVars(info *types.Info, n ast.Node, closures map[types.Object]*ast.F
 		}
 	}
 	var visit func(n ast.Node)
+	visitedClosure := map[*ast.FuncLit]bool{} // a closure may call itself (var f func(); f = func(){ f() })
 	visit = func(n ast.Node) {
 		ast.Inspect(n, func(n ast.Node) bool {
 			switch s := n.(type) {
@@ -1467,7 +1470,8 @@ func assignedVars(info *types.Info, n ast.Node, closures map[types.Object]*ast.F
 						mark(s.Args[0])
 					}
 					if o := info.Uses[id]; o != nil {
-						if fl, ok := closures[o]; ok {
+						if fl, ok := closures[o]; ok && !visitedClosure[fl] {
+							visitedClosure[fl] = true
 							visit(fl.Body)
 						}
 					}
@@ -1610,7 +1614,72 @@ func (x *Exec) loopContract(n ast.Node) (*LoopContract, int) {
 	if x.cx.fc == nil {
 		return nil, ord
 	}
-	return x.cx.fc.Loops[ord], ord
+	lc := x.cx.fc.Loops[ord]
+	if lc != nil && lc.Exhaustive && x.quiet == 0 && !x.termMode {
+		if x.cx.exhaustiveDone == nil {
+			x.cx.exhaustiveDone = map[int]bool{}
+		}
+		if !x.cx.exhaustiveDone[ord] {
+			x.cx.exhaustiveDone[ord] = true
+			o := x.W.Oblige(x.oblName(fmt.Sprintf("loop%d/exhaustive", ord), ""), "frame", True, True)
+			o.Preset, o.Solver, o.Result = true, "loop-scan", "unsat"
+			if exits := loopEarlyExits(x.cx.fi, n); len(exits) > 0 {
+				o.Result = "sat"
+				o.Output = "the loop can stop before it has visited every element: " + strings.Join(exits, ", ")
+			}
+		}
+	}
+	return lc, ord
+}
+
+// loopEarlyExits lists the statements inside the body of loop n that leave the loop before its natural end:
+// return, goto, break (unlabelled ones that belong to this loop, labelled ones that name it or an outer statement).
+func loopEarlyExits(fi *FuncInfo, n ast.Node) []string {
+	var body *ast.BlockStmt
+	switch l := n.(type) {
+	case *ast.ForStmt:
+		body = l.Body
+	case *ast.RangeStmt:
+		body = l.Body
+	}
+	if body == nil {
+		return nil
+	}
+	var out []string
+	pos := func(p token.Pos) string {
+		ps := fi.Pkg.Fset.Position(p)
+		return fmt.Sprintf("%s:%d", relFile(ps.Filename), ps.Line)
+	}
+	var walk func(node ast.Node, breakable bool)
+	walk = func(node ast.Node, inner bool) {
+		ast.Inspect(node, func(c ast.Node) bool {
+			if c == nil || c == node {
+				return true
+			}
+			switch s := c.(type) {
+			case *ast.FuncLit:
+				return false
+			case *ast.ReturnStmt:
+				out = append(out, "return at "+pos(s.Pos()))
+			case *ast.BranchStmt:
+				switch s.Tok {
+				case token.GOTO:
+					out = append(out, "goto at "+pos(s.Pos()))
+				case token.BREAK:
+					if s.Label != nil || !inner {
+						out = append(out, "break at "+pos(s.Pos()))
+					}
+				}
+			case *ast.ForStmt, *ast.RangeStmt, *ast.SwitchStmt, *ast.TypeSwitchStmt, *ast.SelectStmt:
+				// unlabelled breaks below belong to this inner statement
+				walk(c, true)
+				return false
+			}
+			return true
+		})
+	}
+	walk(body, false)
+	return out
 }
 
 // scopeAt builds a contract scope resolving Go variable names at position pos.
